@@ -258,6 +258,18 @@ def odd_frames(rnd, start):
                     else:
                         val = pkt.jint(rnd.randrange(1 << w))
                     add(names, raw, pos, prop, val, "two-tags %s assign %s[%d].%s" % ("/".join(names[1:]), kind, pos, prop), len(names))
+    for names in (["eth", "ipv4", "ipv6"], ["eth", "ipv4", "ipv6", "udp"], ["eth", "vlan", "ipv4", "ipv6", "tcp"]):
+        for rep_ in range(4):
+            raw = stack_frame(rnd, names)
+            for pos in range(names.index("ipv6"), len(names)):
+                kind = names[pos]
+                for prop in pkt.LAYER_PROPS[kind]:
+                    if (kind, prop) in pkt.STRUCTURAL or (kind, prop) in pkt.ADDR_FIELDS:
+                        continue
+                    w = pkt.FIELD_BITS.get((kind, prop))
+                    if w is None or rnd.random() < 0.5:
+                        continue
+                    add(names, raw, pos, prop, pkt.jint(rnd.randrange(1 << min(w, 31))), "tunnel %s assign %s.%s" % ("/".join(names[1:]), kind, prop), len(names))
     for ihl in (0, 1, 3, 4):
         for names in (["eth", "ipv4"], ["eth", "vlan", "ipv4"]):
             raw = bytearray(stack_frame(rnd, names) + pkt.rbytes(rnd, 24))
